@@ -24,12 +24,10 @@ Section Records.
 Variable o : toracles.
 Variable serial : N.
 
-(* library behaviour (net.ParseIP / net.IP.String, bytes.ToLower) *)
+(* library behaviour (net.ParseIP / net.IP.String) *)
 Variable Hip_rt : forall a, wf_bytes a -> length a = 16%nat -> o_parse_ip o (o_print_ip o a) = Some a.
 Variable Hip_nil : o_parse_ip o [] = None.
 Variable Hip_nosep : forall a, contains 44 (o_print_ip o a) = false.
-Variable Hlow_dot : forall a b, to_lower o (a ++ 46 :: b) = to_lower o a ++ 46 :: to_lower o b.
-Variable Hlow_nodot : forall a, contains 46 a = false -> contains 46 (to_lower o a) = false.
 
 Let pr := o_isprint o.
 
@@ -298,15 +296,15 @@ Proof using o serial Hip_rt Hip_nosep.
 Qed.
 
 (* ------------------------------------------------------------------ convert (norm r) = convert r *)
-Lemma addr_kv_nn : forall v2 d w ip ttl lo wt, addr_kv o v2 (nn d) w ip ttl lo wt = addr_kv o v2 d w ip ttl lo wt.
-Proof. intros. unfold addr_kv. rewrite (key_nn o Hlow_dot Hlow_nodot). reflexivity. Qed.
+Lemma addr_kv_nn : forall v2 d w ip ttl lo wt, addr_kv v2 (nn d) w ip ttl lo wt = addr_kv v2 d w ip ttl lo wt.
+Proof. intros. unfold addr_kv. rewrite key_nn. reflexivity. Qed.
 
 Lemma convert_norm : forall v2 nornet r,
   wf_recordb o r = true -> finding_class o serial r = false -> dot_serial_okb serial r = true ->
-  convert o v2 nornet (norm r) = convert o v2 nornet r.
+  convert v2 nornet (norm r) = convert v2 nornet r.
 Proof.
   intros v2 nornet r W F S.
-  pose proof (key_nn o Hlow_dot Hlow_nodot) as K.
+  pose proof key_nn as K.
   destruct r; cbn [norm convert]; unfold soa_kv, ns_kv; rewrite ?addr_kv_nn, ?K, ?(putdom_nn); try reflexivity.
   - (* Z: the serial *)
     unfold finding_class in F. cbn [f12_class f26_class f27_class] in F. rewrite !orb_false_r in F.
@@ -324,14 +322,14 @@ Proof.
     unfold finding_class in F. cbn [f12_class f26_class f27_class] in F. cbn [orb] in F.
     rewrite (normname_eq o dom (wf_nameb_spec o dom W)) in *.
     unfold wild_okb in W1. rewrite (normname_eq o dom (wf_nameb_spec o dom W)) in W1.
-    rewrite (mapkey_nn o Hlow_dot Hlow_nodot); [reflexivity|].
+    rewrite mapkey_nn; [reflexivity|].
     destruct (is_wild dom), (is_wild (nn dom)); cbn in *; congruence.
   - (* 8 *)
     cbn [wf_recordb] in W. split_wf W.
     unfold finding_class in F. cbn [f12_class f26_class f27_class] in F. cbn [orb] in F.
     rewrite (normname_eq o dom (wf_nameb_spec o dom W)) in *.
     unfold wild_okb in W1. rewrite (normname_eq o dom (wf_nameb_spec o dom W)) in W1.
-    rewrite (mapkey_nn o Hlow_dot Hlow_nodot); [reflexivity|].
+    rewrite mapkey_nn; [reflexivity|].
     destruct (is_wild dom), (is_wild (nn dom)); cbn in *; congruence.
   - (* ! *)
     destruct null; reflexivity.
